@@ -64,7 +64,7 @@ func init() {
 		ID:    "C18",
 		Level: "model_checking",
 		Rule: "graph part: 15 object-rich sources (recursion, mutual recursion, forward references, labels, type-switch/range/select variables, iota groups, type parameters, receivers, closures, shadowing, unresolved names) plus every corpus template, parsed with object resolution: " +
-			"the decorator's Objects/Scopes/Nodes maps must be a graph isomorphism (shared objects, kind, name, data, declaration link, scope nesting and membership), and restoring with Extras must rebuild an isomorphic graph; " +
+			"the decorator's Objects/Scopes/Nodes maps must be a graph isomorphism (shared objects, kind, name, data, declaration link, scope nesting and membership), and restoring with Extras must rebuild an isomorphic graph; files resolved against each other decorated one at a time, and an isolated declaration, keep every declaration link; " +
 			"package part: every non-empty subset of <=4 files of a 10-file pool (cross-file references, redeclarations, undeclared names, dot/renamed/failing imports, a mismatching package clause, a shadowed universe name) x importer {nil, map} x universe {nil, small scope}: " +
 			"dst.NewPackage on the decorated files (Unresolved filled from the images) vs go/ast.NewPackage on the originals: same package scope, same error multiset (positions aside), same remaining unresolved names and same resolutions; state = source / (file set, importer, universe)",
 		Assumptions:      []string{"go/ast.NewPackage and go/parser's object resolution of this toolchain are the reference"},
@@ -74,7 +74,7 @@ func init() {
 			for _, t := range c18Templates {
 				u = append(u, "graph/"+t.Name)
 			}
-			u = append(u, "graph/@corpus", "graph/@package")
+			u = append(u, "graph/@corpus", "graph/@package", "graph/@crossfile")
 			for i := range c18Pool {
 				u = append(u, "package/first="+c18Pool[i].Name)
 			}
@@ -107,7 +107,16 @@ func init() {
 				}
 				return
 			}
-			first := unit - len(c18Templates) - 2
+			if unit == len(c18Templates)+2 {
+				for _, mode := range []string{"files-one-at-a-time", "isolated-declaration"} {
+					cs := c18Case{Mode: "crossfile", Template: mode}
+					ctx.State("crossfile|"+mode, true)
+					ctx.R.Transitions++
+					ctx.Eval(cs, c18Check(cs))
+				}
+				return
+			}
+			first := unit - len(c18Templates) - 3
 			var sets [][]string
 			sets = append(sets, []string{c18Pool[first].Name})
 			for j := first + 1; j < len(c18Pool); j++ {
@@ -159,6 +168,9 @@ func c18Check(cs c18Case) core.Outcome {
 	}
 	if cs.Mode == "pkggraph" {
 		return c18PkgGraph(cs, fail)
+	}
+	if cs.Mode == "crossfile" {
+		return c18CrossFile(cs, fail)
 	}
 	var src string
 	if strings.HasPrefix(cs.Template, "@") {
@@ -697,6 +709,79 @@ func c18PkgGraph(cs c18Case, fail func(string, string, ...interface{}) core.Outc
 		g2 := *g
 		if kk, d := g2.checkFile(af, dpkg.Files[name]); kk != "" {
 			return fail("decorate:"+kk, "file %s: %s", name, d)
+		}
+	}
+	return core.Outcome{OK: true}
+}
+
+var c18Cross = []string{
+	"package p\n\nfunc A() int { return B() }\n",
+	"package p\n\nfunc B() int { return C() + len(T{}.s) }\n",
+	"package p\n\nfunc C() int { return 1 }\n\ntype T struct{ s string }\n",
+}
+
+// c18CrossFile: objects whose declarations lie outside the node being decorated (other files of the
+// package resolved by go/ast.NewPackage, or the rest of the file for an isolated declaration): every
+// object reachable from the decorated identifiers must still have its declaration link.
+func c18CrossFile(cs c18Case, fail func(string, string, ...interface{}) core.Outcome) core.Outcome {
+	fset := token.NewFileSet()
+	files := map[string]*ast.File{}
+	var names []string
+	src := c18Cross
+	if cs.Template == "isolated-declaration" {
+		src = []string{"package p\n\nfunc A() int { return B() }\n\nfunc B() int { return C() }\n\nfunc C() int { return 1 }\n"}
+	}
+	for i, s := range src {
+		name := fmt.Sprintf("f%d.go", i)
+		af, err := parser.ParseFile(fset, name, s, parser.ParseComments)
+		if err != nil {
+			panic(err)
+		}
+		files[name] = af
+		names = append(names, name)
+	}
+	ast.NewPackage(fset, files, nil, nil) // resolves identifiers across the files
+	dec := decorator.NewDecorator(fset)
+	check := func(what string) *core.Outcome {
+		// every object known to the decorator: kind, name and declaration link
+		var objs []*ast.Object
+		for o := range dec.Dst.Objects {
+			objs = append(objs, o)
+		}
+		sort.Slice(objs, func(i, j int) bool { return objs[i].Name < objs[j].Name })
+		for _, o := range objs {
+			d := dec.Dst.Objects[o]
+			if d.Name != o.Name || fmt.Sprint(d.Kind) != fmt.Sprint(o.Kind) {
+				o := fail("crossfile-object", "%s: object %s maps to %s/%v", what, o.Name, d.Name, d.Kind)
+				return &o
+			}
+			if an, ok := o.Decl.(ast.Node); ok {
+				dn, mapped := dec.Dst.Nodes[an]
+				if d.Decl == nil || !mapped || d.Decl != interface{}(dn) {
+					o := fail("crossfile-decl-link:"+what, "%s: object %s has a declaration on the ast side (%T) but its dst counterpart has Decl %v", what, o.Name, an, d.Decl)
+					return &o
+				}
+			}
+		}
+		return nil
+	}
+	if cs.Template == "isolated-declaration" {
+		var err error
+		if p := guard(func() { _, err = dec.DecorateNode(files[names[0]].Decls[0]) }); p != "" || err != nil {
+			return fail("crossfile-decorate", "DecorateNode on an isolated declaration: %s %v", p, err)
+		}
+		if o := check("isolated declaration"); o != nil {
+			return *o
+		}
+		return core.Outcome{OK: true}
+	}
+	for _, name := range names {
+		var err error
+		if p := guard(func() { _, err = dec.DecorateFile(files[name]) }); p != "" || err != nil {
+			return fail("crossfile-decorate", "%s: %s %v", name, p, err)
+		}
+		if o := check("after decorating " + name); o != nil {
+			return *o
 		}
 	}
 	return core.Outcome{OK: true}
